@@ -216,11 +216,27 @@ inductive COp where
   | drain
   | setcap (n : Nat)
   | stat
+  /-- `n` inserts of fresh clean frames for two reserved page ids in turn: a compact way to ask for tens of thousands
+      of evictions; answered with the number of evictions -/
+  | churn (n : Nat)
 deriving Repr, DecidableEq
 
 def showBool (b : Bool) : String := if b then "1" else "0"
 def showFrame (f : Frame) : String := s!"{f.page}:{f.val}:{showBool f.dirty}"
 def showFrames (fs : List Frame) : String := "[" ++ ",".intercalate (fs.map showFrame) ++ "]"
+
+def churnBase : Nat := 1099511627776
+
+def Mem.churnLoop (D : Defects) : Nat → Mem → Nat → Nat → Mem × String
+  | 0, m, _, ev => (m, s!"churn {ev}")
+  | k + 1, m, i, ev =>
+    let f : Frame := { page := churnBase + i % 2, fid := m.nextFid, val := 0, dirty := false }
+    let m := { m with nextFid := m.nextFid + 1 }
+    match m.cache.insert D m.free f with
+    | (c, .oom) => ({ m with cache := c }, "oom")
+    | (c, .replaced old) => Mem.churnLoop D k (({ m with cache := c }).park old) (i + 1) ev
+    | (c, .inserted none) => Mem.churnLoop D k { m with cache := c } (i + 1) ev
+    | (c, .inserted (some _)) => Mem.churnLoop D k { m with cache := c } (i + 1) (ev + 1)
 
 def Mem.cstep (D : Defects) (m : Mem) : COp → Mem × String
   | .ins p v d =>
@@ -277,6 +293,7 @@ def Mem.cstep (D : Defects) (m : Mem) : COp → Mem × String
     (({ m with cache := c }).parkAll fs, s!"drain {showFrames fs}")
   | .setcap n => ({ m with cache := m.cache.setCapacity n }, "ok")
   | .stat => (m, s!"cap={m.cache.capacity} n={m.cache.frames.length}")
+  | .churn n => m.churnLoop D n 0 0
 
 def Mem.crun (D : Defects) : Mem → List COp → Mem × List String
   | m, [] => (m, [])
